@@ -326,6 +326,22 @@ theorem debit_dominates_network_shape :
     SdnsVerif.Gen.C12.shape_queryer_debit_before_dispatch = true ∧
     SdnsVerif.Gen.C12.shape_subquery_debit_before_resolve = true := by decide
 
+/-- **The guards the termination argument rests on are in place** (shape of
+the current tree): `checkDname` refuses at `maxDnameDepth` and re-tags the
+context with `depth+1` before the internal exchange; `processDelegation` and
+`resolveWithCachedNameservers` decrement `rs.depth` and return at zero before
+they re-enter `resolve` (`FStep.descend` / `FStep.cached`); `rs.level++` and
+`rs.nomin = true` outside the cached descent happen only under `minimized`
+(`FStep.levelUp` / `FStep.nominRetry`); NS-address lookups consult `checkLoop`
+first. -/
+theorem termination_guards_shape :
+    SdnsVerif.Gen.C12.shape_dname_depth_guard = true ∧
+    SdnsVerif.Gen.C12.shape_delegation_spends_depth = true ∧
+    SdnsVerif.Gen.C12.shape_cached_descent_spends_depth = true ∧
+    SdnsVerif.Gen.C12.shape_level_up_only_when_minimized = true ∧
+    SdnsVerif.Gen.C12.shape_nomin_retry_only_when_minimized = true ∧
+    SdnsVerif.Gen.C12.shape_checkloop_before_ns_lookup = true := by decide
+
 /-! ### non-vacuity -/
 
 def pol2 : Policy := { mode := .enforce, caps := KTab.ofList 0 [2, 1, 4, 8, 2, 2, 2, 2] }
